@@ -104,3 +104,12 @@ Theorem C02_auto_mapping_argument_order_refuted :
   repr_inst (VAuto (lit "AutoA") [(lit "a", VDict [(lit "b", VStr (lit "q")); (lit "z", VInt 1)])]).
 Proof. exact auto_mapping_argument_order_matters. Qed.
 Print Assumptions C02_auto_mapping_argument_order_refuted.
+
+(* K2c (open known finding): "the values substituted for placeholders" do enter the key in one corner - a parameter
+   declared dont_persist_default_value whose configured value is a placeholder string: it is dropped from the key text
+   exactly when the substituted text equals the default.  Replayed on the implementation on every run. *)
+Theorem C02_placeholder_equal_to_default_refuted :
+  param_repr k2c_param (sr (of_map [(lit "D", lit "/mnt")]) (VStr (lit "{D}/x")), false) <>
+  param_repr k2c_param (sr (of_map [(lit "D", lit "/srv")]) (VStr (lit "{D}/x")), false).
+Proof. exact placeholder_default_matters. Qed.
+Print Assumptions C02_placeholder_equal_to_default_refuted.
